@@ -113,6 +113,8 @@ type Recorder struct {
 	closed     bool
 	Late       int
 	Yield      bool
+	CancelAtWrite int    // cancel when the n-th write arrives (0 = never)
+	CancelFn      func() // what "cancel" means (set by the runner)
 }
 
 func (r *Recorder) write(s string) {
@@ -124,7 +126,11 @@ func (r *Recorder) write(s string) {
 		r.Late++
 	}
 	r.Writes = append(r.Writes, s)
+	hit := r.CancelAtWrite > 0 && len(r.Writes) == r.CancelAtWrite && r.CancelFn != nil
 	r.mu.Unlock()
+	if hit {
+		r.CancelFn()
+	}
 	if r.Yield {
 		runtime.Gosched()
 	}
